@@ -472,6 +472,14 @@ var _ = rand.Intn
 
 // ---- C17: identity of tunnel, peer and opening metadata (forward, several tunnels, nested) ----
 
+// relaySTS stands for the transport stream of the gRPC handler a relaying caller runs in.
+type relaySTS struct{}
+
+func (relaySTS) Method() string               { return "/relay.Svc/Relay" }
+func (relaySTS) SetHeader(metadata.MD) error  { return nil }
+func (relaySTS) SendHeader(metadata.MD) error { return nil }
+func (relaySTS) SetTrailer(metadata.MD) error { return nil }
+
 type taggedStream struct {
 	grpc.ServerStream
 	ctx context.Context
@@ -558,6 +566,11 @@ func TestW2Identity(t *testing.T) {
 					base = metadata.AppendToOutgoingContext(base, "x", label)
 					wantX, wantKeys = label, "x"
 				}
+				if strings.HasSuffix(label, "-relay") {
+					// the caller is itself inside a gRPC handler and passes its handler context on (a relay, a gateway): the
+					// outbound RPC's context then still carries the handler's ServerTransportStream
+					base = grpc.NewContextWithServerTransportStream(base, relaySTS{})
+				}
 				ctx, cancel := context.WithTimeout(base, 5*time.Second)
 				defer cancel()
 				var used grpctunnel.TunnelChannel
@@ -596,6 +609,8 @@ func TestW2Identity(t *testing.T) {
 				check(fmt.Sprintf("n%d", round), nested, "nested", "inner")
 				check(fmt.Sprintf("a%d-bare", round), ch1, "fwd1", "outer")
 				check(fmt.Sprintf("n%d-bare", round), nested, "nested", "inner")
+				check(fmt.Sprintf("b%d-relay", round), ch2, "fwd2", "outer")
+				check(fmt.Sprintf("n%d-relay", round), nested, "nested", "inner")
 			}
 		})
 	}
